@@ -106,8 +106,7 @@ def r4(ctx, prog):
     def room(e, pol):
         if not isinstance(e, int):
             return False
-        c = rl.norm_cmp(f, e, pol)
-        return c is not None and c[0] == "<" and rl.field_is(f, c[1], "capacity") and rl.field_is(f, c[2], "reserved")
+        return rl.establishes(f, e, pol, "<", rl.is_field(f, "capacity"), rl.is_field(f, "reserved"))
     import bounds
     for c in exts:
         w = cfg.guarded(cfg.pt(c), room)
@@ -125,8 +124,7 @@ def r4(ctx, prog):
             def gt(e, pol):
                 if not isinstance(e, int):
                     return False
-                cc = rl.norm_cmp(f, e, pol)
-                return cc is not None and cc[0] == ">" and rl.var_of(f, cc[1]) == ed and rl.var_of(f, cc[2]) == d2
+                return rl.establishes(f, e, pol, ">", rl.is_local(f, ed), rl.is_local(f, d2))
             w = cfg.guarded(cfg.pt(a), gt) if (op == "=" and d2 is not None) else ["not a clamp"]
             ctx.check(R, w is None, f.where(a), "extend is only ever reduced (clamp idiom `if (extend > m) extend = m`)", key="C01.R4:clamp", witness=w)
         for c in exts:
@@ -230,8 +228,7 @@ def r7(ctx, prog):
     def big_enough(e, pol):
         if not isinstance(e, int):
             return False
-        c = rl.norm_cmp(f, e, pol)
-        return c is not None and c[0] == ">=" and rl.field_is(f, c[1], "slice_count") and rl.var_of(f, c[2]) == want
+        return rl.establishes(f, e, pol, ">=", rl.is_field(f, "slice_count"), rl.is_local(f, want))
     for c in f.calls(("mi_segment_span_allocate", "mi_span_queue_delete")):
         w = cfg.guarded(cfg.pt(c), big_enough)
         ctx.check(R, w is None, f.where(c), "%s only on the `slice->slice_count >= slice_count` edge" % f.nodes[c]["callee"], key="C01.R7:find:fit", witness=w)
@@ -239,13 +236,12 @@ def r7(ctx, prog):
         def bigger(e, pol):
             if not isinstance(e, int):
                 return False
-            cc = rl.norm_cmp(f, e, pol)
-            return cc is not None and cc[0] == ">" and rl.field_is(f, cc[1], "slice_count") and rl.var_of(f, cc[2]) == want
+            return rl.establishes(f, e, pol, ">", rl.is_field(f, "slice_count"), rl.is_local(f, want))
         w = cfg.guarded(cfg.pt(c), bigger)
         ctx.check(R, w is None, f.where(c), "split only when the span is strictly larger", key="C01.R7:find:split", witness=w)
         for c2 in f.calls("mi_segment_span_allocate"):
-            w = rl.precedes(f, lambda e: e == c, c2, edge_ok=lambda lab, p, q: not any(isinstance(e, int) and rl.norm_cmp(f, e, pol) and rl.norm_cmp(f, e, pol)[0] == "<=" and
-                                                                                      rl.field_is(f, rl.norm_cmp(f, e, pol)[1], "slice_count") for e, pol in cfg.facts(lab)))
+            w = rl.precedes(f, lambda e: e == c, c2, edge_ok=lambda lab, p, q: not any(isinstance(e, int) and rl.establishes(f, e, pol, "<=", rl.is_field(f, "slice_count"), rl.is_local(f, want))
+                                                                                      for e, pol in cfg.facts(lab)))
             ctx.check(R, w is None, f.where(c2), "a larger span is split before it is allocated", key="C01.R7:find:split_first", witness=w)
     g = prog.fn("mi_segment_slice_split")
     sc = g.param_id(2)
